@@ -25,6 +25,16 @@ def replace_node(node: _M, repl: _M) -> None:
         repl.reattach(token_store)
 
 
+def _check_reusable(values: Iterable[base.RawModel]) -> None:
+    # Refuse before anything is modified.
+    for value in values:
+        token_store = value.token_store
+        if token_store and (
+                value.first_token is not token_store.get_first() or
+                value.last_token is not token_store.get_last()):
+            raise ValueError('Cannot reuse node. Consider making a copy.')
+
+
 class required_node_property(base_rw_property[_M, base.RawTreeModel]):
     def __init__(self, inner_field: required_field[_M]) -> None:
         super().__init__()
@@ -195,6 +205,7 @@ class RepeatedNodeWrapper(MutableSequence[_M]):
             return
         assert isinstance(value, Iterable)
         values = list(value)
+        _check_reusable(values)
         r = indexes.range_from_index(index, len(self._repeated.items))
         separators_before_last = (
             self._repeated.token_store.get_prev(self._repeated.items[0].first_token)
@@ -241,6 +252,7 @@ class RepeatedNodeWrapper(MutableSequence[_M]):
 
     def extend(self, values: Iterable[_M]) -> None:
         values = list(values)
+        _check_reusable(values)
         index = len(self._repeated.items)
         self._insert_tokens(index, values)
         for value in values:
